@@ -524,4 +524,71 @@ theorem org_gap_zero (code : List Nat) (addr : Nat) (i : Nat) (hi : code.length 
   have : i - code.length < 2 * (addr - code.length / 2) := by omega
   simp [this]
 
+/-! ### segments: where pass 1 places them and where pass 2 puts their bytes -/
+
+/-- **A code segment lands at its address.**  Pass 2 pads the flash image with zero bytes up to
+    byte offset 2·address (when the image is shorter), appends the segment's bytes there and goes
+    on: nothing emitted before is touched, shifted or dropped. -/
+theorem code_segment_lands (p1 : Pass1Result) (s : Segment) (more : List Segment) (code ee : List Nat) (ctx ctx' : Ctx)
+    (frag : List Nat) (ht : s.t = .code) (heven : code.length % 2 = 0) (hge : code.length / 2 ≤ s.address)
+    (hp : pass2Items .code s.items s.address [] ctx = .ok (frag, ctx')) :
+    pass2.go p1 (s :: more) code ee ctx =
+      pass2.go p1 more (code ++ List.replicate (2 * (s.address - code.length / 2)) 0 ++ frag) ee ctx' ∧
+    (code ++ List.replicate (2 * (s.address - code.length / 2)) 0).length = 2 * s.address := by
+  constructor
+  · conv => lhs; unfold pass2.go
+    simp only [ht, hp]
+  · exact org_lands code s.address heven hge
+
+/-- the same for an EEPROM segment, in bytes -/
+theorem eeprom_segment_lands (p1 : Pass1Result) (s : Segment) (more : List Segment) (code ee : List Nat) (ctx ctx' : Ctx)
+    (frag : List Nat) (ht : s.t = .eeprom) (hge : ee.length ≤ s.address)
+    (hp : pass2Items .eeprom s.items s.address [] ctx = .ok (frag, ctx')) :
+    pass2.go p1 (s :: more) code ee ctx =
+      pass2.go p1 more code (ee ++ List.replicate (s.address - ee.length) 0 ++ frag) ctx' ∧
+    (ee ++ List.replicate (s.address - ee.length) 0).length = s.address := by
+  constructor
+  · conv => lhs; unfold pass2.go
+    simp only [ht, hp]
+  · simp; omega
+
+/-- a data segment emits nothing -/
+theorem data_segment_emits_nothing (p1 : Pass1Result) (s : Segment) (more : List Segment) (code ee : List Nat) (ctx ctx' : Ctx)
+    (frag : List Nat) (ht : s.t = .data) (hp : pass2Items .data s.items s.address [] ctx = .ok (frag, ctx')) :
+    pass2.go p1 (s :: more) code ee ctx = pass2.go p1 more code ee ctx' := by
+  conv => lhs; unfold pass2.go
+  simp only [ht, hp]
+
+/-- **Pass 1 places a code segment** at its `.org` address, or — without `.org` (address 0) — at
+    the running code offset; an `.org` below the running offset is an overlap error; the running
+    offset then becomes the end pass 1 booked (`code_lockstep`: exactly what pass 2 emits).
+    (The EEPROM and data memories: the same with their own offsets, `pass1_places_eeprom_segment`.) -/
+theorem pass1_places_code_segment (msgs : List Str) (dev : Device) (s : Segment) (more out : List Segment)
+    (cO dO eO : Nat) (ctx : Ctx) (ht : s.t = .code) :
+    pass1.go msgs dev (s :: more) cO dO eO out ctx =
+      if s.address ≠ 0 ∧ s.address < cO then noLineErr "overlap" else
+      match pass1Items .code dev.flash s.items (if s.address = 0 then cO else s.address) ctx with
+      | .ok (endOff, items, ctx') =>
+        pass1.go msgs dev more endOff dO eO ({ items := items, t := .code, address := if s.address = 0 then cO else s.address } :: out) ctx'
+      | .error e => .error e
+      | .panic p => .panic p
+      | .oof => .oof := by
+  conv => lhs; unfold pass1.go
+  simp only [ht]
+  rfl
+
+theorem pass1_places_eeprom_segment (msgs : List Str) (dev : Device) (s : Segment) (more out : List Segment)
+    (cO dO eO : Nat) (ctx : Ctx) (ht : s.t = .eeprom) :
+    pass1.go msgs dev (s :: more) cO dO eO out ctx =
+      if s.address ≠ 0 ∧ s.address < eO then noLineErr "overlap" else
+      match pass1Items .eeprom dev.eeprom s.items (if s.address = 0 then eO else s.address) ctx with
+      | .ok (endOff, items, ctx') =>
+        pass1.go msgs dev more cO dO endOff ({ items := items, t := .eeprom, address := if s.address = 0 then eO else s.address } :: out) ctx'
+      | .error e => .error e
+      | .panic p => .panic p
+      | .oof => .oof := by
+  conv => lhs; unfold pass1.go
+  simp only [ht]
+  rfl
+
 end Avra.Props.C02
